@@ -538,6 +538,78 @@ def query_interference(rep: report.Report, mc: Dict[str, Any]) -> None:
                   f"query pairs)", replay(h, "length"))
 
 
+MEMO_VALUE_SRC = r'''
+import json, sys
+import measured, measured.systems
+from measured import conversions, One
+from measured.si import Celsius, Kelvin, Meter, Second, Kilogram, Watt, Hour, Liter
+from measured.us import Fahrenheit, Foot, Mile, Inch, Acre, Gallon
+from measured.avoirdupois import Pound
+PLAIN = [("Celsius", "Kelvin"), ("Fahrenheit", "Celsius"), ("Kelvin", "Fahrenheit"), ("Foot", "Meter"), ("Mile", "Inch"),
+         ("Pound", "Kilogram"), ("Hour", "Second"), ("Gallon", "Liter")]
+SHAPES = ["Watt / {u}", "{u} * Watt", "{u} ** 2", "One / {u}", "Watt / {u} ** 2", "{u} / Second", "Kilogram * {u} / Second ** 2"]
+def value(a, b):
+    try:
+        return repr((20 * eval(a)).in_unit(eval(b)).magnitude)
+    except Exception as e:
+        return type(e).__name__
+def interfere(a, b, shape):
+    try:
+        (5 * eval(shape.format(u=a))).in_unit(eval(shape.format(u=b)))
+    except Exception:
+        pass
+mode = sys.argv[1]
+if mode == "audit":
+    first = {p: value(*p) for p in PLAIN}
+    hits = []
+    for (a, b) in PLAIN:
+        for shape in SHAPES:
+            interfere(a, b, shape)
+            for p in PLAIN:
+                now = value(*p)
+                if now != first[p]:
+                    hits.append([list(p), first[p], now, a, b, shape])
+                    first[p] = now
+    print(json.dumps(hits))
+else:
+    a, b, shape, qa, qb = sys.argv[2:7]
+    if mode == "with":
+        interfere(a, b, shape)
+    print(json.dumps(value(qa, qb)))
+'''
+
+
+def memo_value_audit(rep: report.Report) -> None:
+    """What a memoised function returned must not be changed under it: plain conversions are asked,
+    then conversions of compound units built from the same pairs (a scale in a denominator, powers,
+    products), then the plain ones again -- all in one process; a changed answer is replayed against a
+    fresh process.  A finite audit over 8 pairs x 7 compound shapes, listed as such."""
+    p = subprocess.run([report.REPO_PY, "-c", MEMO_VALUE_SRC, "audit"], capture_output=True, text=True, timeout=300, cwd="/")
+    if p.returncode != 0:
+        rep.ob("unknown", f"memoised values audit did not run: {p.stderr[-200:]}", ("memo-values",))
+        return
+    hits = json.loads(p.stdout.strip().splitlines()[-1])
+    name = "plain conversions answer the same before and after 56 conversions of compound units built from the same pairs"
+    if not hits:
+        rep.ob("unsat", name, ("memo-values",))
+        return
+    rep.ob("sat", name, ("memo-values",))
+    (qa, qb), was, now, a, b, shape = hits[0]
+    body = "import subprocess, json\nSRC = " + repr(MEMO_VALUE_SRC) + f"""
+def run(mode):
+    p = subprocess.run([sys.executable, '-c', SRC, mode, {a!r}, {b!r}, {shape!r}, {qa!r}, {qb!r}], capture_output=True, text=True)
+    return json.loads(p.stdout.strip().splitlines()[-1])
+fresh, after = run('without'), run('with')
+print('(20 * {qa}).in_unit({qb}) in a fresh process:', fresh, '  after converting 5 * ({shape.format(u=a)}) into {shape.format(u=b)}:', after)
+if fresh != after:
+    print('REPRODUCED: an earlier conversion of other units changed the outcome of a later one'); sys.exit(1)
+sys.exit(0)
+"""
+    rep.violation("C08:memoised-value-changed",
+                  f"(20 * {qa}).in_unit({qb}) answers {was} and, after (5 * ({shape.format(u=a)})).in_unit({shape.format(u=b)}), "
+                  f"{now}: a conversion of other units changed what a memo holds ({len(hits)} changes in the audit)", body)
+
+
 def validate_abstraction(rep: report.Report, tier: str) -> int:
     """fresh(D)(i,j) of the model vs the real in_unit with empty caches, for every declaration
     graph on 3 nodes."""
@@ -774,6 +846,7 @@ def main(tier: str, selftest_cases: int = 0) -> int:
             break
     if mc["generic_caches"]:
         query_interference(rep, mc)
+    memo_value_audit(rep)
     construction_order(rep, tier)
     # memoised functions may only conflate calls they cannot tell apart (engine/memokeys.py)
     from engine import memokeys
